@@ -525,3 +525,13 @@ Definition stableb (L : lex) (s : schema) (c : cas) : bool :=
     | _ => false end
   | _ => false
   end.
+
+(* ---- the pre-c9a01e4 rule, kept for the refutation: DocumentAnnotation was never written to %TYPES ---- *)
+Definition ser_types_old (s : schema) (mode : tsmode) (used : list tname) : res (list (string * json)) :=
+  match mode with
+  | MNone => Ok []
+  | _ =>
+    do names <- types_to_include s mode used ;;
+    do tis <- mapM (fun n => match sch_find s n with Some ti => Ok ti | None => Err ETypeNotFound end) (sort_names names) ;;
+    Ok [(K_TYPES, JObj (map (ser_type s) (filter (fun ti => negb (String.eqb (ti_name ti) T_DOCANN)) tis)))]
+  end.
